@@ -29,26 +29,26 @@ type Config struct {
 
 // Stats is what a schedule did.
 type Stats struct {
-	Yields      uint64 // yield points reached
-	Decisions   uint64 // points at which a choice was drawn
-	Switches    uint64
-	LockYields  uint64
-	Blocked     uint64 // yields because a lock was not available
-	Hash        uint64 // hash of the pick trace
-	NoProgress  bool   // every runnable task kept failing to take a lock
-	OutOfSteps  bool
-	HeldSwitch  uint64 // switches away from a task at an unlock/lock point
+	Yields     uint64 // yield points reached
+	Decisions  uint64 // points at which a choice was drawn
+	Switches   uint64
+	LockYields uint64
+	Blocked    uint64 // yields because a lock was not available
+	Hash       uint64 // hash of the pick trace
+	NoProgress bool   // every runnable task kept failing to take a lock
+	OutOfSteps bool
+	HeldSwitch uint64 // switches away from a task at an unlock/lock point
 }
 
 type state struct {
-	n       int
-	turn    int
-	done    []bool
-	rng     uint64
-	cfg     Config
-	st      Stats
+	n          int
+	turn       int
+	done       []bool
+	rng        uint64
+	cfg        Config
+	st         Stats
 	blockedRun uint64
-	abort   bool
+	abort      bool
 }
 
 var cur *state
